@@ -36,7 +36,11 @@ func debugFn(keys []string) {
 			return base(fn, ord)
 		}
 		w.Cx.MaxVisits = 5
+		if v, err := strconv.Atoi(os.Getenv("VERIF_MAXVISITS")); err == nil {
+			w.Cx.MaxVisits = v
+		}
 		w.Cx.MaxPaths = 2000
+		w.Cx.NoMerge = os.Getenv("VERIF_NOMERGE") != ""
 		if os.Getenv("VERIF_FEASIBLE") != "" {
 			sym.Feasible = func(pc []*smt.Term) bool {
 				return smt.Solve(pc, smt.Options{Timeout: 2 * time.Second, OnlyFirst: true}).Status != "unsat"
